@@ -555,7 +555,10 @@ func cbor2JsonOneObject(src *bufio.Reader, dst io.Writer) {
 
 	switch major {
 	case majorTypeUnsignedInt:
-		fallthrough
+		// The argument of major type 0 spans the whole uint64 range.
+		n := decodeInteger(src)
+		dst.Write([]byte(strconv.FormatUint(uint64(n), 10)))
+
 	case majorTypeNegativeInt:
 		n := decodeInteger(src)
 		dst.Write([]byte(strconv.Itoa(int(n))))
